@@ -39,6 +39,12 @@ fn n_callback(vm: &mut Vm<Aux>, f: Value, x: Value) -> Result<Value, ExecutionEr
     vm.get_aux_mut().push(format!("callback -> {t}"));
     Ok(r)
 }
+/// typed parameters at the first and the last position (conversion errors name the parameter)
+fn n_typed3(vm: &mut Vm<Aux>, a: &str, n: i64, b: &str) -> Result<Value, ExecutionErrorPayload> {
+    let l = format!("typed3 {a} {n} {b}");
+    vm.get_aux_mut().push(l);
+    Ok(Value::Integer(n))
+}
 /// a protected call: the callee's error is swallowed
 fn n_pcall(vm: &mut Vm<Aux>, f: Value, x: Value) -> Result<Value, ExecutionErrorPayload> {
     vm.stack_push(x)?;
@@ -115,6 +121,7 @@ pub fn new_vm(mem: usize, stack: usize, calls: usize) -> Vm<'static, Aux> {
     vm.register_native_function("mktable", into_f1(n_mktable)).unwrap();
     vm.register_native_function("papply", n_papply).unwrap();
     vm.register_native_function("pcall", into_f2(n_pcall)).unwrap();
+    vm.register_native_function("typed3", into_f3(n_typed3)).unwrap();
     vm
 }
 
@@ -261,6 +268,8 @@ impl Engine for VmEngine {
                 "vm new mem=16384 stack=256 calls=256".to_string(),
                 format!("vm repeat mod([],[fn($6d61696e,[],[setvar($73,str(${})),setvar($74,table),setprop(readvar($73),readvar($74),int(#0)),setprop(readvar($73),readvar($74),int(#1)),setglobal($67,len(call($7374642e736f72746564,[readvar($74)])))])],[]) n=60 clear=0 budget=2000", "78".repeat(150)),
             ],
+            // arithmetic corners in scripts: MIN / -1, MIN * -1, x / 0
+            run("setglobal($61,div(int(#-9223372036854775808),int(#-1))),setglobal($62,mul(int(#-9223372036854775808),int(#-1))),setglobal($63,div(int(#1),int(#0))),setglobal($64,sub(int(#-9223372036854775808),int(#1)))", ""),
             // known finding K2: == on a table that contains itself recurses without bound
             run("setvar($74,table),setprop(readvar($74),readvar($74),int(#0)),setglobal($67,eq(readvar($74),readvar($74)))", ""),
             // nested budget (F9): a sort whose key function loops; the whole run has one budget
